@@ -287,6 +287,14 @@ func (x *executor) storedRec(id string) (Rec, error) {
 }
 
 func (x *executor) LoadSession(id string) (*sessions.Session, error) {
+	b, ok, err := x.loadBytes(id)
+	if err != nil || !ok {
+		return nil, err
+	}
+	return x.decode(b) // calls LoadUser
+}
+
+func (x *executor) loadBytes(id string) ([]byte, bool, error) {
 	x.mu.Lock()
 	defer x.mu.Unlock()
 	if x.quiet {
@@ -296,19 +304,10 @@ func (x *executor) LoadSession(id string) (*sessions.Session, error) {
 	x.events = append(x.events, Ev{Op: "load", Key: x.keyOf(id), OK: !fail})
 	x.afterOp()
 	if fail {
-		return nil, errInjected
+		return nil, false, errInjected
 	}
 	b, ok := x.data[id]
-	if !ok {
-		return nil, nil
-	}
-	x.mu.Unlock()
-	s, err := x.decode(b) // calls LoadUser
-	x.mu.Lock()
-	if err != nil {
-		return nil, err
-	}
-	return s, nil
+	return b, ok, nil
 }
 
 func (x *executor) LoadUser(id interface{}) (sessions.User, error) {
